@@ -321,12 +321,10 @@ def asBuilt : CVal → CVal
   | v => v
 
 /-- the literal is the one `fixConst` emits for the namesake's value; it is the exact value unless the name is in
-    the class `D`, and names of the class are never exact -/
+    the class `D` (that names of the class are never exact is `divergeOk`) -/
 def valueOkAsBuilt (D : List (Nat × Nat)) (pkg : Nat) (e : Entry) (o : RefObj) : Bool :=
   match e.form with
-  | .lit =>
-    let a := asBuilt o.val
-    e.val != .none && e.val == a && ((e.val == o.val) != inClass D pkg e.key)
+  | .lit => e.val != .none && e.val == asBuilt o.val && (e.val == o.val || inClass D pkg e.key)
   | _ => true
 
 /-- merge join on key = name (both lists in the same order); every entry must find its object -/
@@ -502,33 +500,22 @@ theorem inClass_iff {D : List (Nat × Nat)} {pkg key : Nat} : inClass D pkg key 
   · intro h; exact ⟨(pkg, key), h, rfl, rfl⟩
 
 /-- every literal entry is evaluated and is what `fixConst` emits for an object of the same name; outside the class
-    it is exactly the value of that object, inside the class it is not -/
+    it is exactly the value of that object -/
 theorem valuesOk_sound {D : List (Nat × Nat)} {pkg : Nat} {es : List Entry} {os : List RefObj}
     (h : valuesOk D pkg es os = true) :
     ∀ e ∈ es, e.form = .lit → ∃ o ∈ os, o.name = e.key ∧ e.val = asBuilt o.val ∧ e.val ≠ .none ∧
-      ((pkg, e.key) ∉ D → e.val = o.val) ∧ ((pkg, e.key) ∈ D → e.val ≠ o.val) := by
+      ((pkg, e.key) ∉ D → e.val = o.val) := by
   intro e he hl
   have hw : e.form ≠ .wrap := by rw [hl]; decide
   obtain ⟨o, ho, hn, hp⟩ := joinAll_sound os (plain es) h e (mem_plain he hw)
   refine ⟨o, ho, hn, ?_⟩
-  simp only [valueOkAsBuilt, hl, Bool.and_eq_true, bne_iff_ne, beq_iff_eq] at hp
+  simp only [valueOkAsBuilt, hl, Bool.and_eq_true, bne_iff_ne, beq_iff_eq, Bool.or_eq_true] at hp
   obtain ⟨⟨h1, h2⟩, h3⟩ := hp
-  refine ⟨h2, h1, ?_, ?_⟩
-  · intro hD
-    have hc : inClass D pkg e.key = false := by
-      cases hh : inClass D pkg e.key
-      · rfl
-      · exact absurd (inClass_iff.mp hh) hD
-    rw [hc] at h3
-    cases hv : (e.val == o.val)
-    · simp [hv] at h3
-    · simpa using hv
-  · intro hD
-    have hc : inClass D pkg e.key = true := inClass_iff.mpr hD
-    rw [hc] at h3
-    cases hv : (e.val == o.val)
-    · simpa using hv
-    · simp [hv] at h3
+  refine ⟨h2, h1, ?_⟩
+  intro hD
+  rcases h3 with h3 | h3
+  · exact h3
+  · exact absurd (inClass_iff.mp h3) hD
 
 /-- every name of the class that belongs to this package is a literal entry whose value is NOT the value of any
     object of that name -/
